@@ -181,6 +181,21 @@ def gen_pull(rng):
     return {"part": "pull", "comps": comps, "links": links, "order": order, "end": rng.randint(6, 24)}
 
 
+def gen_pull_feedback(rng):
+    """a feedback loop that runs through a pull-based component and is broken by a fixed delay placed *behind* it:
+    Model >> P(pull) >> DelayFixed(d) >> Ctrl >> Model with d >= the sum of the two steps.  The scheduling guarantee
+    has to follow the delayed request through the pull-based component, otherwise the loop looks unresolved"""
+    a, b = rng.choice([1, 2, 3]), rng.choice([1, 2, 3, 4])
+    d = a + b + rng.choice([0, 0, 1, 2])
+    comps = [{"kind": "time", "start": 0, "steps": [a]}, {"kind": "pull", "nout": 1}, {"kind": "time", "start": 0, "steps": [b]}]
+    links = [{"src": 0, "out": 0, "dst": 1, "ads": [["scale"]] if rng.random() < 0.3 else []},
+             {"src": 1, "out": 0, "dst": 2, "ads": [["dfix", d]]},
+             {"src": 2, "out": 0, "dst": 0, "ads": []}]
+    order = [0, 1, 2]
+    rng.shuffle(order)
+    return {"comps": comps, "links": links, "order": order, "end": rng.randint(8, 20), "part": "pull"}
+
+
 def oracle_pull(spec, impl):
     if impl["error"] is not None:
         return ("a consumer reading through pull-based components is served", {"error": impl["error"], "msg": impl.get("msg")})
@@ -381,7 +396,7 @@ def run(ctx, res):
         if o:
             res.fail(c, o[0], o[1])
     # (2)
-    specs = [gen_pull(ctx.rng) for _ in range(ctx.n(200, 4000))]
+    specs = [gen_pull_feedback(ctx.rng) if ctx.rng.random() < 0.12 else gen_pull(ctx.rng) for _ in range(ctx.n(200, 4000))]
     out = sc.run_cases(specs, res, [lambda s, i: oracle_pull(s, i)], exclude=lambda s, i: ("C01:" + c01.oracle(s, i)[2]) if (c01.oracle(s, i) and c01.oracle(s, i)[2]) else None)
     res.count("part", "pull", n=len(specs))
     # (3)
